@@ -297,6 +297,16 @@ def cq_N(n):
 
 
 # ----------------------------------------------------------------------------- stage 7
+def _big_stack():
+    """long byte strings (tens of thousands of list elements) overflow coqc's default 8 MB stack"""
+    import resource
+    try:
+        hard = resource.getrlimit(resource.RLIMIT_STACK)[1]
+        resource.setrlimit(resource.RLIMIT_STACK, (hard, hard))
+    except (ValueError, OSError):
+        pass
+
+
 def coq_eval(prop_id, hold_mod, agree_mod, terms, workdir, per_shard=400, want_branch=True, timeout=1500,
              extra_imports="", scope="N_scope"):
     """terms: list of (id:int, gallina_term). Returns dict with failing ids and branch histogram.
@@ -326,7 +336,8 @@ def coq_eval(prop_id, hold_mod, agree_mod, terms, workdir, per_shard=400, want_b
             if want_branch:
                 f.write("Eval vm_compute in map (fun ic => branch_of (snd ic)) cases.\n")
         p = subprocess.run(["coqc", "-noglob"] + COQ_FLAGS + ["-Q", workdir, "LVRun", vf],
-                           stdout=subprocess.PIPE, stderr=subprocess.STDOUT, text=True, timeout=timeout)
+                           stdout=subprocess.PIPE, stderr=subprocess.STDOUT, text=True, timeout=timeout,
+                           preexec_fn=_big_stack)
         return p.returncode, p.stdout
 
     bad_hold, bad_agree, branches = [], [], {}
